@@ -57,6 +57,9 @@ def norm_ws(s):
     return re.sub(r"\s+", "", s)
 
 
+DROPPED_FNS = {}
+
+
 def extract(unit, canary, tag="", template=None):
     os.makedirs(BUILD, exist_ok=True)
     sfx = "_canary" if canary else ""
@@ -65,9 +68,22 @@ def extract(unit, canary, tag="", template=None):
     cmd = [VX, "extract", "--repo", REPO, "--unit", template or os.path.join(ROOT, "units", unit + ".vrs"), "--out", out, "--log", log]
     if canary:
         cmd.append("--canary")
-    rc, o, e = sh(cmd)
+    # a function under contract that no longer exists in /repo (`lost-anchor fn T::name`): its block is dropped and the rest of the
+    # unit is extracted (VX_DROP_FNS); run_unit keeps the unit undecided for it unless the rest shows a failing obligation
+    dropped = list(DROPPED_FNS.get(unit, []))
+    for _ in range(4):
+        env = dict(os.environ, VX_DROP_FNS=",".join(dropped)) if dropped else None
+        p = subprocess.run(cmd, capture_output=True, text=True, env=env)
+        rc, o, e = p.returncode, p.stdout, p.stderr
+        m = re.search(r"lost-anchor fn (\S+)\s*$", (e.strip() or o.strip()), re.M) if rc != 0 else None
+        if m and m.group(1) not in dropped:
+            dropped.append(m.group(1))
+            continue
+        break
     if rc != 0:
         return None, None, (e.strip() or o.strip() or f"vx exit {rc}")
+    if dropped:
+        DROPPED_FNS[unit] = dropped
     with open(log) as f:
         vxlog = json.load(f)
     # a lifted closure / match arm is known to Verus (and reported) under the name it was emitted as
@@ -360,6 +376,24 @@ def exists_at_baseline(file, name):
 
 
 NEW_CALLEES = {}
+STD_UNSUPPORTED = re.compile(r"`([^`]+)` is not supported")
+_STD_AUTO = None
+
+
+def std_auto_table():
+    """units/prelude/std_auto.tsv: Verus path of a std function vstd does not specify -> the specification added on demand"""
+    global _STD_AUTO
+    if _STD_AUTO is None:
+        _STD_AUTO = {}
+        try:
+            for l in open(os.path.join(ROOT, "units", "prelude", "std_auto.tsv")):
+                if l.startswith("#") or "\t" not in l:
+                    continue
+                k, v = l.rstrip("\n").split("\t", 1)
+                _STD_AUTO[k] = v
+        except OSError:
+            pass
+    return _STD_AUTO
 
 
 def auto_stub_text(res, unit=None):
@@ -394,6 +428,13 @@ def auto_stub_text(res, unit=None):
                 if exists_at_baseline(hits[0][0], name) is False:
                     NEW_CALLEES.setdefault(unit, set()).add(name)
                 pieces.append(f"#[verifier::external_body]\n//@fn {hits[0][0]} ::{name} sigonly\n//@end")
+            continue
+        m = STD_UNSUPPORTED.search(msg)
+        if m:
+            spec = std_auto_table().get(m.group(1))
+            if spec and ("std", m.group(1)) not in seen:
+                seen.add(("std", m.group(1)))
+                pieces.append(f"// std function without a vstd specification, now called by a function under contract: {m.group(1)} (units/prelude/std_auto.tsv)\n{spec}")
             continue
         m = MISSING_TYPE.search(msg)
         if m and ("type", m.group(1)) not in seen:
@@ -700,6 +741,8 @@ def run_unit_inner(unit, tier, seed):
             for v in extra:
                 undec.append({"unit": unit, "reason": f"seed {k}: obligation fails only under this seed", "id": v["id"]})
             r["cmds"].append(res3["cmd"])
+    for d in vxlog.get("dropped_fns", []):
+        undec.append({"unit": unit, "reason": f"lost anchor: function under contract {d} no longer exists in the source; its contract was dropped and the rest of the unit verified without it"})
     r["violations"] = viol
     r["failed"] = len(viol)
     r["undecided"] = undec
